@@ -1198,7 +1198,7 @@ class Wavefront:
             field after lyot, [field at fpm, field after fpm, field at lyot]
 
         """
-        fpm = 1 - fpm
+        fpm = 1.0 - fpm  # in floating point: an unsigned integer mask cannot hold its complement
         if return_more:
             field, field_at_fpm, field_after_fpm = \
                 self.to_fpm_and_back(efl=efl, fpm=fpm, fpm_dx=fpm_dx, method=method,
@@ -1255,7 +1255,7 @@ class Wavefront:
         # d = c*L          | cbar = dbar * conj(L)
         # f = d - flip(a)  | dbar = d
 
-        fpm = 1 - fpm
+        fpm = 1.0 - fpm  # in floating point: an unsigned integer mask cannot hold its complement
 
         dbar = self.data
         if lyot is not None:
